@@ -212,11 +212,13 @@ const obsDef = `def _c09o:
   else ["o"] end;
 `
 
+// errClass names the error for statistics and diagnostics only: the driver treats every `err:*` as "rejected with an
+// error" and never requires a particular class (wording and error types are not part of the property).
 func errClass(msg string) string {
 	switch {
 	case strings.Contains(msg, "byte in binary list must be bytes"):
 		return "err:byterange"
-	case strings.Contains(msg, "value can't be a binary"):
+	case strings.Contains(msg, "can't be") && strings.Contains(msg, "binary"):
 		return "err:notbinary"
 	case strings.Contains(msg, "outside buffer"):
 		return "err:outside"
